@@ -119,6 +119,30 @@ PROPS['C02'] = dict(
                  'through its influence on behaviour under heap-fill perturbation, not as every uninitialised read'],
 )
 
+c05 = B('c05_strings', 'c05_strings.cpp', 'asan')
+fz05 = B('fz_string', 'c05_strings.cpp', 'fuzz')
+PROPS['C05'] = dict(
+    title='String literals decode exactly per RFC 8259 escapes, wherever they sit',
+    units=[
+        U(c05, 'prng', 250000, 6000000, wq=4, wt=8, label='c05-prng'),
+        U(c05, 'rc', 4000, 100000, wq=2, wt=2, label='c05-rc'),
+        U(c05, 'prng', 768, 768 * 24, wq=2, wt=6, label='c05-exhaustive-u', args=['--exhaustive-u']),
+        F(fz05, 15, 600, wq=2, wt=2, label='fz_string', field='body', dict='fuzz/string.dict', max_len=300),
+    ],
+    harness_alias={'fz_string': 'c05_strings'},
+    exhaustive=dict(quick=False, thorough=False),
+    rule='cases: literal = filler(0..69 bytes) + feature + filler, so the feature sits at every offset of the 16/32-byte grid; '
+         'features: the 8 short escapes, \\uXXXX (all 65536 values enumerated completely by the exhaustive-u unit in each of '
+         '3 contexts, every run), surrogate-region singles and ordered pairs, every raw byte, every byte after a backslash, '
+         'malformed \\u, unpaired/misordered surrogates, runs of consecutive escapes; contexts: root value, array element, '
+         'object key+value, on-demand key, UpdateLazy key; plus libFuzzer over literal bodies. Oracle: refjson.unescape '
+         '(accept/reject, decoded bytes, error class when the literal holds one fault kind). Non-trivial: invalid literal, '
+         'or >= 16 bytes with an escape, or a control/high byte.',
+    min_evaluations=dict(quick=200000, thorough=3000000),
+    required_classes=['feature:short-escape', 'feature:u-pair', 'feature:high-surrogate-unpaired', 'feature:low-surrogate-first',
+                      'feature:raw-control', 'feature:escape-run', 'ctx:key', 'ctx:ondemand-key', 'ctx:updatelazy-key'],
+)
+
 
 def tool_versions():
     out = {}
